@@ -8,6 +8,8 @@ cd /verif
 mkdir -p out; : > out/confirm_seeded.log
 for d in seeded/${1:-*}; do
   name=$(basename "$d"); pid=${name:0:3}
+  # a change whose demonstration concerns an operation owned by another property names that check in meta.json
+  cw=$(python3 -c "import json,sys; print(json.load(open(sys.argv[1])).get('confirm_with',''))" "$d/meta.json" 2>/dev/null); [ -n "$cw" ] && pid=$cw
   if ! git -C /repo apply "$PWD/$d/patch.diff" 2>/dev/null; then echo "$name: patch does not apply" | tee -a out/confirm_seeded.log; continue; fi
   out=$(./check $pid quick 2>&1 | grep -v "^KNOWN-FINDING"); rc=$?
   rc=$(echo "$out" | grep -o "exit=[0-9]" | tail -1)
